@@ -105,7 +105,7 @@ type Case struct {
 	ExpectStdout   *string  `json:"expect_stdout,omitempty"`
 	ExpectExit     *int     `json:"expect_exit,omitempty"`
 	ExpectErrLine  int      `json:"expect_err_line,omitempty"` // >0: first diagnostic must name this line
-	ExpectNoRun    bool     `json:"expect_no_run,omitempty"`   // no OUT/READ/NOW/BUILTIN events at all
+	ExpectNoRun    bool     `json:"expect_no_run,omitempty"`   // no OUT/READ/BUILTIN events at all
 	ExpectStderr   string   `json:"expect_stderr,omitempty"`   // "empty" | "nonempty" | ""
 	StripTokens    []string `json:"strip_tokens,omitempty"`    // tokens removed from stdout before comparison
 	Notes          []string `json:"notes,omitempty"`
